@@ -360,7 +360,55 @@ class Codec(object):
     x = lst if i == 0 else lst[i - 1]
     return x
 
-  def modify(self, k, obj, path, op, v):
+  def write_match(self, m, fields, form):
+    """one write of the construction history of a match, in the spelling `form` names"""
+    if form == "wildcards":
+      m.wildcards = of.OFPFW_ALL            # "match everything", assigned directly
+      return
+    for n in MATCH_FIELDS:
+      if n not in fields:
+        continue
+      v = fields[n]
+      if n in ("nw_src", "nw_dst"):
+        bits = fields[n + "_bits"][0]
+        if not v:
+          if form == "method":
+            getattr(m, "set_" + n)(None)
+          else:
+            setattr(m, n, None)
+          continue
+        ip = IPAddr(bytes(v))
+        if form == "tuple":
+          setattr(m, n, (ip, bits))
+        elif form == "cidr":
+          setattr(m, n, "%s/%d" % (ip, bits))
+        elif form == "method":
+          getattr(m, "set_" + n)(ip, bits)
+        elif form == "attr" and bits == 32:
+          setattr(m, n, ip)
+        else:
+          raise Unbuildable("form %r for /%d" % (form, bits))
+      elif n in ("dl_src", "dl_dst"):
+        setattr(m, n, EthAddr(bytes(v)) if v else None)
+      else:
+        setattr(m, n, _int(v) if v else None)
+
+  def setf(self, k, obj, path, fields, form):
+    cur, ck = obj, k
+    for st in path:
+      cur = self.target(ck, cur, st)
+      ck = self.kind_of(cur)
+    if ck == "match":
+      return self.write_match(cur, fields, form)
+    for n, v in fields.items():
+      if self.nx.handles(ck):
+        self.nx.set_field(ck, cur, self.desc(ck, n), v)
+      else:
+        self.set_field(ck, cur, self.desc(ck, n), v)
+
+  def modify(self, k, obj, path, op, v, form=""):
+    if op == "setf":
+      return self.setf(k, obj, path, v, form)
     cur, ck = obj, k
     for st in path[:-1]:
       cur = self.target(ck, cur, st)
@@ -463,11 +511,14 @@ class Adapter(object):
     self.own = None
     self.msg = None
     self.modified = False
+    self.wild_assigned = False
 
   def step(self, a, args):
     c = self.codec
     if a == "Modify":
       self.modified = True
+      if args.get("form") == "wildcards":
+        self.wild_assigned = True
     if a == "Choose":
       self.kind = args["msg"]["k"]
       self.tag = args["tag"]
@@ -497,7 +548,7 @@ class Adapter(object):
       self.msg = c.project(obj, k)
       return self.msg
     if a == "Modify":
-      c.modify(self.kind, self.obj, args["path"], args["op"], args["v"])
+      c.modify(self.kind, self.obj, args["path"], args["op"], args["v"], args.get("form", ""))
       return {"ok": True}
     if a == "Encode":
       b = c.pack(self.kind, self.obj)
@@ -552,6 +603,8 @@ class Adapter(object):
     sig = {"action": st["a"], "kind": self.kind, "modified": self.modified}
     if self.obj is None and st["a"] != "Choose":
       sig["received"] = True
+    if self.wild_assigned:
+      sig["wildcards_assigned"] = True      # the history contains `match.wildcards = OFPFW_ALL`
     exp = st["exp"]
     if isinstance(obs, dict) and "EXC" in obs:
       sig["observed"] = "exception:" + obs["EXC"]
